@@ -4,7 +4,7 @@ CONSTANTS
   MaxW = 2
   MaxH = 1
   TypeSet = {"OptString", "Optf64", "Data"}
-  CodeSet = {"E", "Sx", "I7", "XNA"}
+  CodeSet = {"E", "S0", "Sx", "I7", "XNA"}
   CfgKinds = {"all", "custom", "recab"}
   ShapeSet = {"tuple", "struct", "map", "recab"}
   Permute = TRUE
